@@ -98,7 +98,15 @@ pub fn generate(seed: u64, index: u64) -> Sc {
                 5 => r.range(11, 40),
                 _ => r.range(340, 380),
             };
-            let next = today + Duration::days(gap);
+            // now and then the history steps exactly onto New Year's Eve, and from there onto New Year's Day
+            let next = if today.month() == time::Month::December && today.day() == 31 && r.chance(1, 2) {
+                today + Duration::days(1)
+            } else if r.chance(1, 14) && ymd(today.year(), 12, 31) > today {
+                ymd(today.year(), 12, 31)
+            } else {
+                today + Duration::days(gap)
+            };
+            let gap = (next - today).whole_days();
             if next <= last + Duration::days(1) {
                 if gap == 0 {
                     pt = pt || r.chance(1, 2);
@@ -111,7 +119,8 @@ pub fn generate(seed: u64, index: u64) -> Sc {
             }
         }
         let force = r.chance(3, 20);
-        let n_lookups = r.range(1, 8);
+        // 1-8 look-ups, now and then up to 14 (spanning every year of the calendar)
+        let n_lookups = if r.chance(1, 12) { r.range(9, 14) } else { r.range(1, 8) };
         let mut lookups: Vec<Date> = vec![];
         for _ in 0..n_lookups {
             let d = match r.weighted(&[4, 6, 2, 2, 2]) {
